@@ -22,6 +22,9 @@ def run(tier, seed):
             if m <= min(n, 3) or thorough:
                 cases.append(Case('SubPermutation_n%d_m%d' % (n, m), 'random', 'zzC15_SubPermutation', [n, m]))
         cases.append(Case('Shuffle_n%d' % n, 'random', 'zzC15_Samples', [n, n, True]))
+    for (n1, m1, n2, m2) in ([(4, 4, 2, 2), (3, 1, 2, 1), (4, 2, 3, 3), (2, 2, 3, 2)] + ([(5, 5, 3, 3), (5, 2, 4, 4)] if thorough else [])):
+        for which in (0, 1, 2):
+            cases.append(Case('history_%d_%d_%d_%d_w%d' % (n1, m1, n2, m2, which), 'random', 'zzC15_history', [n1, m1, n2, m2, which]))
     # heavy cases first for better load balance
     cases.sort(key=lambda c: -(c.args[0] if c.args and isinstance(c.args[0], int) else 0))
     return run_check('C15', cases, tier, seed,
